@@ -1,6 +1,6 @@
 """C08 — see DESIGN.md section 6.C08; shared machinery in caching_common.py."""
 from .. import common
-from . import caching_common as CC
+from . import c08_files, caching_common as CC
 
 PROP = "C08"
 
@@ -15,8 +15,17 @@ def run(tier, seed):
     tasks = CC.gen_tasks(n, seed, p_fault=0.75, p_dry=0.05, p_render=0.0, norm=None, nmax=8 if tier == "quick" else 10)
     tasks += CC.cut_enumeration_tasks(6 if tier == "quick" else 120, seed)
     CC.campaign(res, PROP, tasks, 'histories (runs with any output / worker count / scheduler / max_errors, runs cut short by failing calls, failing store operations or a cut at the k-th operation as exception or process death, source updates, deletions, dry runs, renders) on seeded random role-assigned plans (3-8 nodes quick, 3-10 thorough) and on the exhaustive 3-node scenario family, executed on the real library and validated event by event against Caching.tla by TLC; non-trivial = a distinct (scenario, history) with at least two runs and at least one store write + for base histories, the final run cut at every operation index, before/after effect, as exception and as process death')
+    c08_files.run_files(res, tier)
     return res
 
 
 def replay(w):
+    if w["witness"].get("files"):
+        o = c08_files.check_case({"situation": w["witness"]["situation"]})
+        print(o["fails"][:3])
+        if o["fails"]:
+            print(f"VIOLATION property={PROP} replay=(reproduced)")
+            return 1
+        print("not reproduced")
+        return 0
     return CC.replay(PROP, w)
